@@ -68,11 +68,21 @@ CHECKS = {
          "All histories of <=3/4 operations on scope chains of depth 1-3 (keys k1,k2; values 1,2,nil) are compared with the overlay model through plain and locked reads; 33 concurrent programs (locked increments, plain writes/reads, Keys, nested locked reads, the get-or-create services of the task manager, environment and wait-group units) are explored under every schedule with <=3/2 (quick) or <=5/3 (thorough) preemptions; the recorded call/return history must be linearizable and end in the final value, services must return one instance.",
          "2-3 threads; bounds as reported; the content of Keys() is not judged.",
          "DESIGN.md 3/C13"),
+ "C14": ("model_checking",
+         "task-graph enumeration x preemption-bounded exhaustive schedule exploration with a happens-before state cache of the real runner/task manager/terminal loop inside a mock application bootstrapped per execution",
+         "Task graphs on 2-3 tasks (all wait shapes), failing-command variants, body durations, a submission waiting for an unknown task, nested pip:run from inside a body and write/read resource locks are submitted through the real Runner into the real self sandbox; probe commands log begin/end with global steps. Every schedule within the bound is executed (dependent pairs: 1 preemption quick / 2 thorough; other two-task graphs and chains 0/1; three-task graphs with concurrent tasks: thorough only, free switches) and the oracle checks wait order, never-after-failed-prerequisite, sequential bodies stopping at a failing command, refused submissions, TasksManager.Wait's result, lock exclusion, no panic, no deadlock.",
+         "Ready select cases are all explored at no cost; accesses to objects outside the focus packages do not order executions in the happens-before cache (declared reduction); siblings sharing a failed context may be cut short.",
+         "DESIGN.md 3/C14"),
  "C15": ("model_checking",
          "configuration enumeration (all lock maps over 2 resources for 2-3 holders) x preemption-bounded exhaustive schedule exploration of the real shared mutex, lock-map iteration order as an explored choice",
          "Every unordered pair and (tiered) triple of lock maps over resources {a,b} is run as holders Lock/enter/exit/Unlock under every schedule within the preemption bound; exclusion is checked at every entry, every compatible pair must overlap in at least one explored execution (so the lock does not serialise readers or disjoint holders), and no schedule may deadlock (the shim models RWMutex writer preference).",
          "2 resources, 2-3 holders, bounds as reported.",
          "DESIGN.md 3/C15"),
+ "C16": ("model_checking",
+         "program enumeration (bodies x handler subsets x failing handlers) x bounded exhaustive schedule exploration with a happens-before state cache through the real terminal seam of a mock application",
+         "For every body kind (succeeds, fails at command 1/2, appends an error, spawns a nested task that succeeds/fails), every subset of success/fail/finally handlers and one failing handler, the script `pip:try ...; next command` runs through the real terminal loop; the oracle checks which handlers ran, that every handler began after the end of the body and of every task it spawned, the error state of the surrounding scope (contained unless a handler failed), that the script continues, no panic, no deadlock - under every schedule within the bound (quick: free switches at blocking points and all ready select cases; thorough: 1 preemption).",
+         "With a failing handler only 'the wrong handler never runs' and containment are judged (handlers are concurrent tasks sharing a context).",
+         "DESIGN.md 3/C16"),
  "C17": ("exploration",
          "exhaustive enumeration of ALL byte strings up to length 7 (quick) / 9 (thorough) over the 9-symbol alphabet of significant bytes, and of all rendered argument lists (<=3 arguments, 12-entry pool, 3 quoting forms, 4 separators)",
          "Totality is checked on every string; strings without quote/backslash/heredoc against a plain-word reference (per-line fields byte-for-byte, eof flags, exact stop at the newline); strings whose backslashes precede a letter or a continuation newline against the argument-count reference; every rendered list must split back to the original list and leave the next command for the next call; InjectArgs mapping is checked on every list.",
